@@ -19,7 +19,7 @@ from .tlc import MachineryError, run_tlc, workdir
 DEFAULT_CAP = None  # tensora's own 1024*1024
 
 PARAMS = {
-    "quick": dict(formats_per_assignment=4, tries=60, inputs=6, caps=[1, 2], c_fraction=4, wide_inputs=24,
+    "quick": dict(formats_per_assignment=4, tries=60, inputs=7, caps=[1, 2], c_fraction=4, wide_inputs=24,
                   gen_kernels=20, random_assignments=40, random_kernels=40, float_fraction=2),
     "thorough": dict(formats_per_assignment=12, tries=300, inputs=10, caps=[1, 2, 3, DEFAULT_CAP], c_fraction=2,
                      wide_inputs=40, gen_kernels=100, random_assignments=300, random_kernels=250, float_fraction=1),
@@ -64,12 +64,15 @@ def has_sparse_output(k: kernels.Kernel) -> bool:
 def input_sets(asg, rng: random.Random, n: int):
     """(dims, content) pairs: empty / full / singleton patterns first, zero-sized and unit dimensions included."""
     out = []
-    plans = [("full", (2, 3)), ("empty", (2, 3)), ("one", (2, 3)), (None, (0, 1, 2)), (None, (1,)), (None, (2, 2, 3))]
+    # the last plan: larger dimensions (4..7) holding a few entries only - coordinates, strides and position counts beyond
+    # what sizes 0..3 can show, at a bounded number of machine steps
+    plans = [("full", (2, 3)), ("empty", (2, 3)), ("one", (2, 3)), (None, (0, 1, 2)), (None, (1,)), (None, (2, 2, 3)),
+             ("few", (4, 5, 7))]
     big = max(len(lf["idx"]) for lf in exprs.leaves(asg["rhs"])) >= 4 if exprs.leaves(asg["rhs"]) else False
     for i in range(n):
         pat, sizes = plans[i] if i < len(plans) else (None, (0, 1, 2, 2, 3, 3))
         if big:
-            sizes = tuple(min(x, 2) for x in sizes)   # order-4 operands: dimensions up to 2
+            sizes = tuple(min(x, 2) for x in sizes) if pat != "few" else (2, 3)   # order-4 operands: small dimensions
         dims = kernels.choose_dims(asg, rng, sizes)
         out.append((dims, kernels.sample_content(asg, dims, rng, pat)))
     return out
